@@ -35,6 +35,11 @@ func verifHarnessC02() {
 	kp := verifKeyPool(verifParam("pool"), verifParam("klen"))
 	wopts := verifOptions(verifDir("db"), "")
 	ropts := verifReaderOptions(wopts)
+	if verifParam("spelling") == 1 {
+		// the same directory under two spellings: with a trailing separator for the first and third session,
+		// without for the second (merge directories, lock files ... must be the same ones)
+		wopts.DirPath += "/"
+	}
 	db, err := Open(wopts)
 	verifAssert(err == nil, "C02.open-err")
 	m := newVModel(len(kp.keys))
@@ -61,6 +66,14 @@ func verifHarnessC02() {
 		}
 		verifSameMapping(db, kp, m, "C02.before-close2")
 		verifAssert(db.Close() == nil, "C02.close2-err")
+		if verifParam("spelling") == 1 {
+			// one more session under the second spelling (it adopts whatever that session merged) before the first
+			// spelling comes back
+			db, err = Open(ropts)
+			verifAssert(err == nil, "C02.reopen-same-spelling-err")
+			verifSameMapping(db, kp, m, "C02.after-restart-same-spelling")
+			verifAssert(db.Close() == nil, "C02.close-same-spelling-err")
+		}
 		db, err = Open(wopts)
 		verifAssert(err == nil, "C02.reopen2-err")
 		verifSameMapping(db, kp, m, "C02.after-restart2")
